@@ -39,6 +39,12 @@ Monitors
                 it on generators of exact special values (a zero in each
                 position, +-1, equal entries, monomial matrices; int / float /
                 complex dtype).
+  chains        (W) two derivations in a row over {real, complex, int} bases:
+                first level = each value-kind derivation (field-changing ones
+                among them: conjugate / compose with complex values, astype,
+                realify), second level = every derivation again, judged by
+                values computed letter by letter (sln_adjoint /
+                symmetric_square by character).
   wrapping      (W) Projective/HyperbolicRepresentation: transformation of
                 rho(w) acting on column vectors (matrix up to scalar + action on
                 a point), generators given as Transformation / Isometry objects.
@@ -353,6 +359,7 @@ def setup(run):
     run.monitor("naming", min_events=30)
     run.monitor("reassign", min_events=30)
     run.monitor("derived", min_events=100)
+    run.monitor("chains", min_events=100)
     run.monitor("wrapping", min_events=20)
     run.monitor("fox", min_events=30)
 
@@ -1850,6 +1857,301 @@ def _derived_case(run, rng, idx, kind, n, k=None, matrices=None, workload="deriv
 
 
 # ---------------------------------------------------------------------------
+# W: chains of two derivations
+#
+# A derived representation is itself a representation: everything can be
+# derived from it again, and the second-level object must still send each word
+# to the corresponding function of the ORIGINAL image.  The first step may
+# change the field (real -> complex by conjugating with a complex matrix,
+# composing with a complex-valued map, astype; complex -> real by realification;
+# integer -> float by inversion) or the dimension, and the second step starts
+# from whatever the first one recorded about itself (dtype, dimension, base
+# ring, names).  (Seeded change C05-r6-1: _compose recording the parent's dtype
+# on the composed representation -- images of the first level stay right, but
+# gln_adjoint() / sln_adjoint() of it allocate real arrays and drop the
+# imaginary parts.)
+
+CHAIN_VALUE = [
+    "conjugate(complex)", "copy", "compose(complex-valued)", "dual", "astype(complex)",
+    "conjugate(real)", "compose(realify)", "gln_adjoint", "compose(kron)",
+    "conjugate(complex,inv_mat)", "compose(identity)", "compose(lie.hom.slc_to_slr)",
+    "tensor_product(self)", "compose(inverse-transpose,inv=)", "compose(det*M)",
+    "compose(conj)", "astype(float)", "change_base_ring(None)",
+    "compose(lie.hom.gln_adjoint)", "compose(lie.hom.block_include)",
+    "tensor_product(other-field)", "subgroup", "compose(kron,compute_inverses)",
+    "compose(real-part)",
+]
+CHAIN_CHARACTER = ["sln_adjoint", "symmetric_square", "compose(lie.hom.sln_adjoint)"]
+_CHAIN_GROWS = {"gln_adjoint", "compose(kron)", "tensor_product(self)",
+                "compose(lie.hom.gln_adjoint)", "tensor_product(other-field)",
+                "compose(kron,compute_inverses)", "sln_adjoint", "symmetric_square",
+                "compose(lie.hom.sln_adjoint)", "compose(realify)",
+                "compose(lie.hom.slc_to_slr)"}
+
+
+def _field(T):
+    kinds = set(np.asarray(v).dtype.kind for v in T.values())
+    return "complex" if "c" in kinds else "float" if "f" in kinds else "int"
+
+
+def _chain_step(which, R, T, rng, names):
+    """one value-kind derivation: -> (S, TS) or None when it does not apply to
+    this representation.  T / TS: {letter: matrix}, inverse letters included;
+    TS is computed from T letter by letter (every map here is a homomorphism)."""
+    from geometry_tools.representation import Representation
+    from geometry_tools import lie
+    dim = np.asarray(next(iter(T.values()))).shape[-1]
+    fld = _field(T)
+    inv = rw.inv_name
+    arr = {x: np.asarray(T[x]) for x in T}
+    fl = {x: (arr[x] if arr[x].dtype.kind in "fc" else arr[x].astype(float)) for x in T}
+
+    def each(f):
+        return {x: f(fl[x], fl[inv(x)]) for x in T}
+
+    if which == "copy":
+        return Representation(R), dict(arr)
+    if which in ("conjugate(real)", "conjugate(complex)", "conjugate(complex,inv_mat)",
+                 "compose(complex-valued)"):
+        C = rw.rand_cond(rng, dim, 10.0, complex_=(which != "conjugate(real)"))
+        Ci = rw.inverse(C)
+        if which == "conjugate(complex,inv_mat)":
+            S = R.conjugate(C.copy(), inv_mat=Ci.copy())
+        elif which == "compose(complex-valued)":
+            S = R.compose(lambda M: Ci @ M @ C)
+        else:
+            S = R.conjugate(C.copy())
+        return S, each(lambda M, Mi: Ci @ M @ C)
+    if which == "dual":
+        return R.dual(), each(lambda M, Mi: Mi.T)
+    if which == "compose(identity)":
+        return R.compose(lambda M: M.copy()), dict(arr)
+    if which == "change_base_ring(None)":
+        return R.change_base_ring(None), dict(arr)
+    if which == "astype(complex)":
+        if fld == "complex":
+            return None
+        return R.astype(complex), each(lambda M, Mi: M.astype(complex))
+    if which == "astype(float)":
+        if fld != "int":
+            return None
+        return R.astype(float), dict(fl)
+    if which == "compose(real-part)":
+        # a homomorphism on matrices with real entries only: the complex-dtype
+        # copy of a real representation brought back
+        if fld != "complex" or any(np.max(np.abs(arr[x].imag)) > 0 for x in T):
+            return None
+        return R.compose(lambda M: np.real(M).copy()), each(lambda M, Mi: np.real(M))
+    if which == "compose(conj)":
+        return R.compose(np.conj), each(lambda M, Mi: np.conj(M))
+    if which == "compose(realify)":
+        return R.compose(realify), each(lambda M, Mi: realify(M))
+    if which == "compose(lie.hom.slc_to_slr)":
+        if fld != "complex":
+            return None
+        return R.compose(lie.hom.slc_to_slr()), each(lambda M, Mi: realify(M))
+    if which == "compose(kron)":
+        return R.compose(lambda M: np.kron(M, M)), each(lambda M, Mi: np.kron(M, M))
+    if which == "compose(kron,compute_inverses)":
+        return (R.compose(lambda M: np.kron(M, M), compute_inverses=True),
+                each(lambda M, Mi: np.kron(M, M)))
+    if which == "compose(inverse-transpose,inv=)":
+        return (R.compose(lambda M, inv=None: (np.linalg.inv(M) if inv is None else inv).T),
+                each(lambda M, Mi: Mi.T))
+    if which == "compose(det*M)":
+        return (R.compose(lambda M: np.linalg.det(M) * M),
+                each(lambda M, Mi: np.linalg.det(M) * M))
+    if which == "gln_adjoint":
+        return R.gln_adjoint(), each(lambda M, Mi: np.kron(M, Mi.T))
+    if which == "compose(lie.hom.gln_adjoint)":
+        return R.compose(lie.hom.gln_adjoint()), each(lambda M, Mi: np.kron(M, Mi.T))
+    if which == "compose(lie.hom.block_include)":
+        d = dim + 1 + int(rng.integers(0, 2))
+        return R.compose(lie.hom.block_include(d)), each(lambda M, Mi: block_diag1(M, d))
+    if which == "tensor_product(self)":
+        return R.tensor_product(R), each(lambda M, Mi: np.kron(M, M))
+    if which == "tensor_product(other-field)":
+        # second factor over the other field (a real representation tensored
+        # with a complex one and conversely)
+        n2 = 1 + int(rng.integers(0, 2))
+        other, tab2 = make_rep(rng, n2, names, "real" if fld == "complex" else "complex")
+        return R.tensor_product(other), {x: np.kron(fl[x], np.asarray(tab2[x])) for x in T}
+    if which == "subgroup":
+        letters = sorted(T)
+        imgs = {g: rw.random_word(rng, letters, int(rng.integers(1, 4))) for g in names}
+        S = R.subgroup(["".join(imgs[g]) for g in names], generator_names=list(names))
+        TS = {}
+        for g in names:
+            TS[g] = rw.evaluate(imgs[g], fl, dim)
+            TS[inv(g)] = rw.evaluate(rw.formal_inverse(imgs[g]), fl, dim)
+        return S, TS
+    raise ValueError(which)
+
+
+def _chain_character(which, R):
+    """terminal (basis-free) kinds: -> (S, dim(n), chi(M, Mi), letter scale)."""
+    from geometry_tools import lie
+    if which == "sln_adjoint":
+        return (R.sln_adjoint(), lambda n: n * n - 1,
+                lambda M, Mi: np.trace(M) * np.trace(Mi) - 1, lambda a, b: max(1.0, a * b))
+    if which == "compose(lie.hom.sln_adjoint)":
+        return (R.compose(lie.hom.sln_adjoint()), lambda n: n * n - 1,
+                lambda M, Mi: np.trace(M) * np.trace(Mi) - 1, lambda a, b: max(1.0, a * b))
+    if which == "symmetric_square":
+        return (R.symmetric_square(), lambda n: n * (n + 1) // 2,
+                lambda M, Mi: 0.5 * (np.trace(M) ** 2 + np.trace(M @ M)),
+                lambda a, b: max(1.0, a * a))
+    raise ValueError(which)
+
+
+def wl_chains(run, rng, idx):
+    mon = run.monitor("chains")
+    kind = ("real", "complex", "int")[idx % 3]
+    first = CHAIN_VALUE[(idx // 3) % len(CHAIN_VALUE)]
+    n = (2, 3, 1, 2)[(idx // 3 + idx) % 4]
+    k = 1 + int(rng.integers(0, 2))
+    names = list("ab"[:k])
+    letters = rw.alphabet(names)
+    rep, tab = make_rep(rng, n, names, kind)
+    base = {"kind": kind, "n": n, "generators": {g: tab[g] for g in names}, "first": first}
+    maxlen = 4 if kind == "int" else 6
+
+    def some_words():
+        ws = [(), (letters[0],), (letters[1],)]
+        for _ in range(3):
+            ws.append(rw.random_word(rng, letters, int(rng.integers(2, maxlen + 1)), cancel=0.2))
+        w = ws[-1]
+        return ws + [w[:1], w[1:]]
+
+    def build(which, R, T, level, keytail):
+        case = dict(base, level=level, derive=which)
+        run.current_case = case
+        try:
+            return _chain_step(which, R, T, rng, names)
+        except Exception as e:
+            mon.fail("chains/exception:%s/%s/%s" % (type(e).__name__, which, keytail),
+                     "level-%d derivation %s raised %s: %s"
+                     % (level, which, type(e).__name__, str(e)[:120]), case,
+                     tb=traceback.format_exc())
+            return False
+
+    def check_values(S, TS, label, key, level, second=None):
+        nT = rw.letter_norms(TS)
+        dimS = np.asarray(next(iter(TS.values()))).shape[-1]
+        for j, tokens in enumerate(some_words()):
+            route = ("getitem", "elements", "list")[j % 3]
+            case = dict(base, level=level, second=second, word="".join(tokens), route=route)
+            run.current_case = case
+            try:
+                L = _numeric(lib_eval(S, tokens, route))
+            except Exception as e:
+                mon.fail("chains/exception:%s/evaluate/%s" % (type(e).__name__, key),
+                         "evaluating the %s representation raised %s: %s"
+                         % (label, type(e).__name__, str(e)[:120]), case,
+                         tb=traceback.format_exc())
+                return
+            ref = rw.evaluate(tokens, TS, dimS)
+            if L.shape != ref.shape:
+                mon.fail("chains/shape/" + key, "%s: value has shape %r, expected %r"
+                         % (label, L.shape, ref.shape), case)
+                return
+            r = float(np.max(np.abs(L - ref))) / rw.scale(tokens, nT) if L.size else 0.0
+            mon.judge(r, max(1e-8, _tol_for(L)), "chains/value/" + key,
+                      "%s: sigma(w) differs from the function of the original image "
+                      "(product of the letters' images)" % label, case)
+
+    # ---- first level
+    out = build(first, rep, tab, 1, "level1/%s" % kind)
+    if out is False:
+        return
+    if out is None:
+        first = "copy"
+        out = build("copy", rep, tab, 1, "level1/%s" % kind)
+        if out is False:
+            return
+    S1, T1 = out
+    tag(S1, "chains", first)
+    trans = "%s>%s" % (_field(tab), _field(T1))
+    check_values(S1, T1, first, "%s/level1/%s" % (first, kind), 1)
+    dim1 = np.asarray(next(iter(T1.values()))).shape[-1]
+    n1 = rw.letter_norms(T1)
+    if any(np.asarray(M).dtype == object for M in S1.generators.values()):
+        # lie.gln_adjoint / sln_adjoint called without dtype= hand a *function*
+        # to utils.check_type as `like` and return object-dtype arrays of Python
+        # numbers (DESIGN.md C17: a diagnostic, not judged).  The values of such
+        # a representation are right (checked above), but numpy's linalg refuses
+        # object arrays, so whatever inverts its generators (dual, subgroup,
+        # tensor_product, compute_inverses ...) raises UFuncTypeError: recorded
+        # as a diagnostic (witness findings/C05-object-dtype-adjoint-then-derive.json),
+        # the second level is not judged for this first level.
+        dg = run.monitor("chains-object-dtype", deciding=False)
+        try:
+            S1.dual()
+            dg.diag("dual() of the object-dtype %s representation runs" % first)
+        except Exception as e:
+            dg.diag("dual() of the object-dtype %s representation raises %s"
+                    % (first, type(e).__name__))
+        mon.skip("first-level representation has object-dtype generators (%s)" % first)
+        flush_history(run)
+        return
+    # ---- every second-level derivation from it
+    for second in CHAIN_VALUE + CHAIN_CHARACTER:
+        if second in _CHAIN_GROWS and dim1 > 4:
+            continue
+        keytail = "%s/first:%s/%s" % (second, trans, kind)
+        if second in CHAIN_CHARACTER:
+            case = dict(base, level=2, second=second)
+            run.current_case = case
+            try:
+                S2, dimf, chi, lsc = _chain_character(second, S1)
+            except Exception as e:
+                mon.fail("chains/exception:%s/%s" % (type(e).__name__, keytail),
+                         "%s of the %s representation raised %s: %s"
+                         % (second, first, type(e).__name__, str(e)[:120]), case,
+                         tb=traceback.format_exc())
+                continue
+            tag(S2, "chains", first, second)
+            d2 = dimf(dim1)
+            for j, tokens in enumerate(some_words()):
+                route = ("getitem", "elements", "list")[j % 3]
+                case = dict(base, level=2, second=second, word="".join(tokens), route=route)
+                run.current_case = case
+                try:
+                    M = _numeric(lib_eval(S2, tokens, route))
+                except Exception as e:
+                    mon.fail("chains/exception:%s/evaluate/%s" % (type(e).__name__, keytail),
+                             "evaluating %s of the %s representation raised %s: %s"
+                             % (second, first, type(e).__name__, str(e)[:120]), case,
+                             tb=traceback.format_exc())
+                    break
+                if M.shape != (d2, d2):
+                    mon.fail("chains/dimension/" + keytail, "%s of %s has dimension %r, "
+                             "expected %d" % (second, first, M.shape, d2), case)
+                    break
+                want = chi(rw.evaluate(tokens, T1, dim1),
+                           rw.evaluate(rw.formal_inverse(tokens), T1, dim1))
+                sc = 1.0
+                for t in tokens:
+                    sc *= lsc(n1[t], n1[rw.inv_name(t)])
+                r = abs(np.trace(M) - want) / (max(d2, 1) * sc) if d2 else 0.0
+                mon.judge(float(r), 1e-8, "chains/character/" + keytail,
+                          "%s of the %s representation: trace of sigma(w) differs from the "
+                          "character of the first-level image" % (second, first), case)
+            run.note_class("chains", kind, first, second, n)
+            continue
+        out = build(second, S1, T1, 2, keytail)
+        if out is False or out is None:
+            continue
+        S2, T2 = out
+        tag(S2, "chains", first, second)
+        check_values(S2, T2, "%s of %s" % (second, first), keytail, 2, second)
+        run.note_class("chains", kind, first, second, n)
+    flush_history(run)
+    if idx < 2:
+        run.sample({"workload": "chains", "kind": kind, "n": n, "first": first})
+
+
+# ---------------------------------------------------------------------------
 # W: projective / hyperbolic wrapping
 
 
@@ -2283,6 +2585,7 @@ WORKLOADS = [
     Workload("inverse-naming", wl_naming, quick=104, thorough=4160),
     Workload("derived", wl_derived, quick=50, thorough=3000),
     Workload("special-values", wl_special, quick=42, thorough=1680),
+    Workload("chains", wl_chains, quick=72, thorough=2880),
     Workload("wrapping", wl_wrapping, quick=32, thorough=1600),
     Workload("fox", wl_fox, quick=72, thorough=4500),
     Workload("fox-dense", wl_fox_dense, quick=4, thorough=192),
